@@ -426,14 +426,28 @@ class C17(Property):
                     zero = [k for k in bad if gp[k] == 0 and sa[k] == 0.0 and ext[k] != 0]
                     if one and set(bad) <= set(one) | set(zero):
                         ctx.violation("inconsistent:endpoint-with-gpts-1", case, det)
-                    elif zero and set(bad) <= set(zero):
-                        how = "assigned" if (op is not None and op[0] == "G") else "zero-gpts-kept" if (
-                            before is not None and before["gpts"] is not None and all(before["gpts"][k] == 0 for k in zero)
-                        ) else "computed-from-negative-quotient" if all(
-                            ext[k] < 0 or (before is not None and before["sampling"] is not None and before["sampling"][k] < 0)
-                            or (op is not None and op[0] == "S" and unval(op[1]) is not None) for k in zero) else "unexplained"
+                    if zero and set(bad) <= set(one) | set(zero):
+                        vv = None if op is None else unval(op[1])
+                        vl = None if vv is None else (list(vv) if isinstance(vv, tuple) else [vv] * after["dims"])
+
+                        def negq(k):  # the quotient extent/sampling that ceil saw in dimension k is negative (re-derived from the inputs)
+                            if op is None or vl is None or before is None or len(vl) != after["dims"]:
+                                return False
+                            if op[0] == "E" and before["sampling"] is not None:
+                                return before["sampling"][k] != 0 and vl[k] / before["sampling"][k] < 0
+                            if op[0] == "S" and before["extent"] is not None:
+                                return vl[k] != 0 and before["extent"][k] / vl[k] < 0
+                            return False
+                        if op is not None and op[0] == "G":
+                            how = "assigned"
+                        elif op is not None and op[0] == "E" and before is not None and before["gpts"] is not None and all(before["gpts"][k] == 0 for k in zero):
+                            how = "zero-gpts-kept"
+                        elif all(negq(k) for k in zero):
+                            how = "computed-from-negative-quotient"
+                        else:
+                            how = "unexplained"
                         ctx.violation(f"inconsistent:gpts-0-with-nonzero-extent:{how}", case, det)
-                    else:
+                    if not (set(bad) <= set(one) | set(zero)):
                         ctx.violation(f"inconsistent:{opname}:locks={lockname}", case, dict(det, dims=bad))
                 if all(n * d != 0 for n, d in zip(gp, sa)):
                     try:
@@ -460,7 +474,7 @@ class C17(Property):
         if locks[0] == "T" and before["extent"] is not None:
             if after["extent"] is None:
                 ctx.violation("locked-extent-unset-by-none-assignment", case, det)
-            elif not np.allclose(after["extent"], before["extent"], rtol=2e-5, atol=2e-8):
+            elif list(after["extent"]) != list(before["extent"]):  # exactly: an accepted (allclose) assignment keeps the locked value
                 mech = ""
                 if op[0] == "G" and locks[2] == "T" and before["sampling"] is not None and after["gpts"] is not None:
                     ok = all(close(r, ((n - 1) if e else n) * d) for r, n, d, e in zip(after["extent"], after["gpts"], before["sampling"], ep))
@@ -483,7 +497,7 @@ class C17(Property):
             ctx.violation(f"locked-sampling-changed:{opname}:locks={lockname}" + (":resampled-to-fit-extent" if ok else ":unexplained"), case, det)
         # the assigned value is what the grid reports afterwards (sampling: at most the requested one when gpts were recomputed)
         if vals is not None and len(vals) == after["dims"]:
-            if op[0] == "E" and not np.allclose(after["extent"], vals, rtol=1e-12, atol=0):
+            if op[0] == "E" and not (locks[0] == "T" and before["extent"] is not None) and not np.allclose(after["extent"], vals, rtol=1e-12, atol=0):
                 ctx.violation(f"assigned-extent-not-kept:locks={lockname}", case, det)
             if op[0] == "G" and after["gpts"] != [int(x) for x in vals]:
                 ctx.violation(f"assigned-gpts-not-kept:locks={lockname}", case, det)
